@@ -184,6 +184,12 @@ def run(ctx):
                 ctx.fail("C19.R2", key, f.file, c.lineno, f.qual,
                          f"`{norm_stmt(c)}` is read without a per-entry OSError handler: "
                          f"one missing or unreadable sensor file makes the whole call fail")
+    # ------------------------------------------------------------------- R4
+    ctx.rule("C19.R4", "/proc/stat keys: cpu_stats() takes ctx_switches, interrupts and "
+             "soft_interrupts from column 1 of the `ctxt`, `intr` and `softirq` lines; "
+             "boot_time() is column 1 of the `btime` line", floor=4)
+    _r4(ctx, repo, A, pm)
+
     # ------------------------------------------------------------------- R3
     ctx.rule("C19.R3", "conventions: a missing high/critical threshold is filled "
              "from the other; battery percent = 100*now/full, secsleft = "
@@ -475,3 +481,51 @@ def _discovery(ctx, repo, A, pm):
                      f"device/, the chips of the second layout silently disappear")
         else:
             ctx.ok("C19.R2", key, sample="glob(hwmon*/X) + glob(hwmon*/device/X), unconditionally")
+
+
+def _keyed_line_value(v):
+    """[(key bytes, column)] for every `int/float(split(line)[col])` selected by
+    `line.startswith(key)` inside v."""
+    out = []
+    for w in collect(v, lambda x: x and x[0] == "when"):
+        conds, val = w[1], w[2]
+        keys = []
+        for c, pol in conds:
+            if pol is True and c and c[0] == "call" and c[1] == "startswith" \
+                    and c[-1][0] == "const":
+                keys.append(c[-1][1])
+        cols = [a[2] for a in collect(val, lambda x: x and x[0] == "idx"
+                                      and isinstance(x[2], int) and x[1][0] == "split")]
+        for k in keys:
+            for col in cols:
+                out.append((k, col))
+    return out
+
+
+def _r4(ctx, repo, A, pm):
+    from ..oracles import linux as OL
+    I = Interp(repo, A)
+    cs = repo.func(pm, "cpu_stats")
+    t = canon(I.call_function(cs, []))
+    nts = [a for a in alternatives(t) if a[0] == "nt"]
+    ctx.require(nts, f"cpu_stats(): no scpustats record: {pretty(t)[:100]}")
+    rec = dict(zip(nts[0][2], nts[0][3]))
+    for fld, keyb in OL.PROC_STAT_KEYS.items():
+        got = _keyed_line_value(rec.get(fld))
+        if "stat" not in pretty(rec.get(fld)):
+            got = []
+        if got and all(k == keyb and c == 1 for k, c in got):
+            ctx.ok("C19.R4", f"cpu_stats:{fld}", sample={fld: f"`{keyb.decode()}` line, column 1"})
+        else:
+            ctx.fail("C19.R4", f"cpu_stats:{fld}", cs.file, cs.node.lineno, cs.qual,
+                     f"cpu_stats().{fld} comes from {got or pretty(rec.get(fld))[:80]}; "
+                     f"proc(5): column 1 of the `{keyb.decode()}` line of /proc/stat")
+    bt = repo.func(pm, "boot_time")
+    tb = canon(I.call_function(bt, []))
+    got = _keyed_line_value(tb)
+    if got and all(k == b"btime" and c == 1 for k, c in got) and "stat" in pretty(tb):
+        ctx.ok("C19.R4", "boot_time", sample="`btime` line of /proc/stat, column 1")
+    else:
+        ctx.fail("C19.R4", "boot_time", bt.file, bt.node.lineno, bt.qual,
+                 f"boot_time() comes from {got or pretty(tb)[:80]}; proc(5): column 1 of the "
+                 f"`btime` line of /proc/stat")
